@@ -100,6 +100,22 @@ func (u *Universe) ManMediaType(i int) string {
 	return MTOpaque
 }
 
+// MTOther is the alternate opaque media type used to re-type opaque manifests.
+const MTOther = "application/vnd.verif.other+json"
+
+// PushMediaType returns the media type a pushManifest op pushes with: the
+// spec's own, or (Mode 1, opaque manifests only) the other opaque type.
+func (u *Universe) PushMediaType(op Op) string {
+	mt := u.ManMediaType(op.M)
+	if op.Mode == 1 && u.Manifests[op.M].Kind == "opaque" {
+		if mt == MTOther {
+			return MTOpaque
+		}
+		return MTOther
+	}
+	return mt
+}
+
 // ManDigest returns the digest of manifest i.
 func (u *Universe) ManDigest(i int) digest.Digest { return digest.FromBytes(u.ManBytes(i)) }
 
@@ -385,7 +401,11 @@ func (e *Env) Exec(op Op) (o Out) {
 		o.setErr(err)
 		o.Desc = liteDesc(d)
 	case "pushManifest":
-		d, err := reg.PushManifest(ctx, e.repo(op.R), e.tag(op.T), u.ManBytes(op.M), u.ManMediaType(op.M))
+		// the caller's buffer is reused (scribbled over) as soon as the call returns:
+		// a registry must not keep referring to it
+		buf := append([]byte(nil), u.ManBytes(op.M)...)
+		d, err := reg.PushManifest(ctx, e.repo(op.R), e.tag(op.T), buf, u.PushMediaType(op))
+		scribble(buf)
 		o.setErr(err)
 		o.Desc = liteDesc(d)
 	case "getManifest":
@@ -476,7 +496,9 @@ func (e *Env) Exec(op Op) (o Out) {
 		if op.N > 0 && op.N < len(data) {
 			data = data[:op.N]
 		}
-		n, err := w.W.Write(data)
+		buf := append([]byte(nil), data...)
+		n, err := w.W.Write(buf)
+		scribble(buf) // io.Writer: Write must not retain p
 		o.setErr(err)
 		o.N = n
 		if n > 0 && n <= len(data) {
@@ -529,6 +551,12 @@ func (e *Env) Exec(op Op) (o Out) {
 		panic("harness: unknown op kind " + op.K)
 	}
 	return o
+}
+
+func scribble(b []byte) {
+	for i := range b {
+		b[i] ^= 0xA5
+	}
 }
 
 func (e *Env) closeSlot(i int) {
